@@ -408,12 +408,16 @@ fn boundary<'t, A>(tree: &Tokenized<'t, A>) -> Result<(), RuleError<'t>>
 where
     A: Spanned,
 {
+    // Boundaries are adjacent when they are neighbors in the same concatenation. Tokens of
+    // different concatenations (such as the last token of one alternation and the first token of
+    // another) are not neighbors, even when they have the same position in the tree.
     if let Some((left, right)) = walk::forward(tree)
-        .group_by(TokenEntry::position)
-        .into_iter()
-        .flat_map(|(_, group)| {
-            group
-                .map(TokenEntry::into_token)
+        .map(TokenEntry::into_token)
+        .filter_map(Token::as_concatenation)
+        .flat_map(|concatenation| {
+            concatenation
+                .tokens()
+                .iter()
                 .tuple_windows::<(_, _)>()
                 .filter(|(left, right)| left.boundary().and(right.boundary()).is_some())
                 .map(|(left, right)| (*left.annotation().span(), *right.annotation().span()))
